@@ -97,7 +97,9 @@ pub fn check(a: CheckArgs) -> i32 {
         return 2;
     }
     let st = std::mem::take(&mut *merged.lock().unwrap());
-    if st.determinism_mismatch > 0 {
+    if st.determinism_mismatch > 0 && st.violations.is_empty() {
+        // the same seed and program gave two different histories in one process and no oracle
+        // objected: state leaks between runs outside the simulator's control
         eprintln!("simcheck: harness error: {} determinism mismatches", st.determinism_mismatch);
         return 2;
     }
